@@ -63,8 +63,12 @@ package sample
 //@   ensures len(logits) == 0 ==> result.0 == -1 && result.1 != nil
 //@   ensures result.1 != nil ==> result.0 == -1
 //@   ensures result.1 == nil ==> 0 <= result.0 && result.0 < len(logits)
+//@   ensures s.temperature == 0.0 && s.grammar == nil && result.1 == nil ==> forall k int :: 0 <= k && k < len(logits) ==> !(logits[k] > logits[result.0])
 //@   ghost-at entry : ghost_vocab := len(logits)
 //@   loop 1 invariant forall k int :: 0 <= k && k <= rangeindex ==> tokens[k].id == k
+// tokens[k].value is a copy of logits[k]: `==` on floats is the uninterpreted feq (NaN != NaN), so the
+// copy is stated observationally: both compare alike against every x
+//@   loop 1 invariant forall k int :: 0 <= k && k <= rangeindex ==> forall x float32 :: ((tokens[k].value < x) <==> (logits[k] < x)) && ((x < tokens[k].value) <==> (x < logits[k]))
 //@   loop 2 invariant forall k int :: 0 <= k && k <= rangeindex ==> tokens[k].id == k
 
 //@ func (*Grammar).Apply
